@@ -3,7 +3,7 @@ import ast
 from fractions import Fraction
 import z3
 from .vals import (SV, Opt, Inf, Vec, Mat, Obj, SList, Forall, Func, Builtin, ClassRef, ExcClass, ModuleRef,
-                   Unsupported, StrS, fresh, fresh_fun, to_frac, is_num)
+                   Unsupported, StrS, fresh, fresh_fun, to_frac, is_num, EnumVal)
 from .ops import term, boolterm, mk, is_scalar, is_real
 from .interp import PyExc, ReturnSig, BreakSig, ContinueSig, Infeasible, Path
 
@@ -38,6 +38,7 @@ class Interp:
         self.models = models
         self.old_env = None
         self.old_map = None
+        path.interp = self
 
     # ------------------------------------------------------------------ names
     def resolve_global(self, name, mod):
@@ -158,6 +159,8 @@ class Interp:
 
     def x_If(self, st, env):
         c = self.eval(st.test, env)
+        if getattr(self, 'merge_mode', 0) and isinstance(c, SV):
+            return self.merged_if(st, env, c)
         if self.p.truth(c):
             self.exec_block(st.body, env)
         else:
@@ -245,6 +248,8 @@ class Interp:
         inv = self.engine.loop_spec(self.callstack[-1] if self.callstack else None, st)
         if inv is not None:
             return inv.run(self, st, env, it)
+        if isinstance(it, self.models.SZip):
+            return self.summarise_zip_loop(st, env, it)
         items = self.iterate(it)
         broke = False
         for k, item in enumerate(items):
@@ -260,6 +265,71 @@ class Interp:
                 continue
         if not broke:
             self.exec_block(st.orelse, env)
+
+    def summarise_zip_loop(self, st, env, zp):
+        """for x, y in zip(A, B): <body appending one element to a local list per iteration>  ==> a map.
+
+        The body is executed once at a generic index in merging mode (no forking: if/else are merged with ite);
+        it may only append to lists that are local variables and empty before the loop."""
+        from . import slist as SL
+        p = self.p
+        lists = zp.lists
+        n = lists[0].n
+        for l in lists[1:]:
+            n = z3.If(l.n < n, l.n, n)
+        n = z3.simplify(n)
+        t = fresh('it', z3.IntSort())
+        before = {k: (v, len(v)) for k, v in env.vars.items() if isinstance(v, list)}
+        item = tuple(mk(l.fn(t)) for l in lists)
+        self.assign(st.target, item, env)
+        p.spec_mode += 1
+        self.merge_mode = getattr(self, 'merge_mode', 0) + 1
+        try:
+            self.exec_block(st.body, env)
+        finally:
+            p.spec_mode -= 1
+            self.merge_mode -= 1
+        for k, (lst, ln) in before.items():
+            if len(lst) == ln:
+                continue
+            if ln != 0 or len(lst) != 1 or env.vars.get(k) is not lst:
+                raise Unsupported('zip loop: only one append per iteration to an initially empty local list')
+            e = SL.code(lst[0])
+            env.vars[k] = SL.new(self, n, lambda i, e=e: z3.substitute(e, (t, i)))
+        if st.orelse:
+            self.exec_block(st.orelse, env)
+
+    def merged_if(self, st, env, c):
+        """if/else on a symbolic condition without forking (loop summaries): both branches run, effects are merged"""
+        ct = boolterm(c)
+        vars0 = dict(env.vars)
+        lens0 = {id(v): (v, len(v)) for v in env.vars.values() if isinstance(v, list)}
+
+        def run(block):
+            env.vars.clear()
+            env.vars.update(vars0)
+            for v, ln in lens0.values():
+                del v[ln:]
+            self.exec_block(block, env)
+            newvars = dict(env.vars)
+            apps = {i: list(v[ln:]) for i, (v, ln) in lens0.items()}
+            return newvars, apps
+        va, aa = run(st.body)
+        vb, ab = run(st.orelse)
+        env.vars.clear()
+        env.vars.update(vars0)
+        for v, ln in lens0.values():
+            del v[ln:]
+        for k in set(va) | set(vb):
+            if k in va and k in vb:
+                env.vars[k] = va[k] if va[k] is vb[k] else self.ops.ite(ct, va[k], vb[k])
+            else:
+                raise Unsupported('merged if: variable defined in one branch only')
+        for i, (v, ln) in lens0.items():
+            if len(aa[i]) != len(ab[i]):
+                raise Unsupported('merged if: branches append different numbers of elements')
+            for x, y in zip(aa[i], ab[i]):
+                v.append(self.ops.ite(ct, x, y))
 
     def x_While(self, st, env):
         inv = self.engine.loop_spec(self.callstack[-1] if self.callstack else None, st)
@@ -467,6 +537,8 @@ class Interp:
 
     def binop(self, op, a, b):
         if isinstance(a, SList) or isinstance(b, SList):
+            return self.models.slist_binop(self, op, a, b)
+        if op == 'Mult' and ((isinstance(a, list) and isinstance(b, SV)) or (isinstance(b, list) and isinstance(a, SV))):
             return self.models.slist_binop(self, op, a, b)
         if isinstance(a, Obj) and op == 'Add':
             ci = self.class_of(a)
@@ -683,6 +755,11 @@ class Interp:
             raise self.p.pyexc('AttributeError', name)
         if isinstance(o, ClassRef):
             ci = o.qual
+            if 'Enum' in ci.bases and name in ci.class_consts:
+                v = self.eval(ci.class_consts[name], Env(self.repo.module(ci.mod)))
+                names = list(ci.class_consts.keys())
+                cd = v if isinstance(v, int) and not isinstance(v, bool) else 1000 + names.index(name)
+                return EnumVal(ci.name, name, v, cd)
             for c in self.repo.mro(ci):
                 m = self.repo.module(c.mod)
                 if name in c.class_consts:
@@ -757,11 +834,49 @@ class Interp:
         rec(0, env)
 
     def e_ListComp(self, n, env):
+        if len(n.generators) == 1 and n.generators[0].ifs and isinstance(n.generators[0].target, ast.Name):
+            g = n.generators[0]
+            src = self.eval(g.iter, env)
+            if isinstance(src, self.models.SRange):
+                from .slist import FiltList
+
+                def cond(i, g=g):
+                    e2 = Env(env.mod, env)
+                    e2.vars[g.target.id] = i
+                    self.p.spec_mode += 1
+                    try:
+                        r = True
+                        for c in g.ifs:
+                            r = self.ops.land(r, self.sbool(self.eval(c, e2)))
+                        return r
+                    finally:
+                        self.p.spec_mode -= 1
+
+                def elt(i, g=g):
+                    e2 = Env(env.mod, env)
+                    e2.vars[g.target.id] = i
+                    self.p.spec_mode += 1
+                    try:
+                        return self.eval(n.elt, e2)
+                    finally:
+                        self.p.spec_mode -= 1
+                return FiltList(self, src.lo, src.hi, cond, elt)
+            return self._listcomp_from(n, env, src)
         r = self.models.vector_comp(self, n, env)
         if r is not NotImplemented:
             return r
         out = []
         self.comp_iter(n.generators, env, lambda e: out.append(self.eval(n.elt, e)))
+        return out
+
+    def _listcomp_from(self, n, env, src):
+        g = n.generators[0]
+        out = []
+        for item in self.iterate(src):
+            e2 = Env(env.mod, env)
+            self.assign(g.target, item, e2)
+            if all(self.p.truth(self.eval(c, e2)) for c in g.ifs):
+                out.append(self.eval(n.elt, e2))
         return out
 
     def e_GeneratorExp(self, n, env):
